@@ -98,6 +98,16 @@ def build(end):
     return {'layers': [A, B], 'tests': tests}
 
 
+def history_key(case):
+    """second run in one process: every single option with a normal ending"""
+    if len(case) == 2 and len(case[0]) <= 1 and case[1] == 'normal':
+        return tuple(case[0])
+    return None
+
+
+HISTORY_MAX = 13
+
+
 def run_case(case):
     sub, end = case
     shutil.rmtree(WD, ignore_errors=True)
